@@ -1,0 +1,42 @@
+#ifndef CHESS_ENGINE_VERIF_HOOK_H_
+#define CHESS_ENGINE_VERIF_HOOK_H_
+
+// Verification hook points. Compiled out unless CHESSPP_VERIF is defined.
+// With the guard on, a point calls the installed sink (if any) with the
+// point's name and two integers; the sink may log the event or park the
+// calling thread (deterministic schedule replay).
+
+#ifdef CHESSPP_VERIF
+
+#include <atomic>
+#include <cstdint>
+
+namespace engine
+{
+namespace verif
+{
+using Sink = void (*)(const char* id, int64_t a, int64_t b);
+inline std::atomic<Sink> sink{nullptr};
+}  // namespace verif
+}  // namespace engine
+
+#define VERIF_POINT(id, a, b)                                              \
+    do                                                                     \
+    {                                                                      \
+        ::engine::verif::Sink verif_sink_ =                                \
+            ::engine::verif::sink.load(std::memory_order_acquire);         \
+        if (verif_sink_)                                                   \
+            verif_sink_((id), static_cast<int64_t>(a),                     \
+                        static_cast<int64_t>(b));                          \
+    } while (false)
+
+#else
+
+#define VERIF_POINT(id, a, b) \
+    do                        \
+    {                         \
+    } while (false)
+
+#endif
+
+#endif  // CHESS_ENGINE_VERIF_HOOK_H_
